@@ -107,6 +107,16 @@ Section Taffy.
     | None => output_HIDDEN
     end.
 
+  (* ---- the class of nodes for which a ComputeSize evaluation provably stores nothing (NS): display is not block (the block algorithm
+     lays its children out while sizing: known finding computesize-scribble), neither align_items nor align_self is baseline (flex rows
+     and grids lay baseline-aligned children out while sizing) *)
+  Definition t_align_items (s : TStyle T) : option FAlign := fs_align_items (bf_flex (ts_bf s)).
+  Definition t_align_self (s : TStyle T) : option FAlign := fs_align_self (bf_flex (ts_bf s)).
+  Definition fa_not_baseline (a : option FAlign) : bool := match a with Some FA_Baseline => false | _ => true end.
+  Definition t_calm (s : TStyle T) : bool :=
+    negb (match display (t_core s) with DBlock => true | _ => false end)
+    && fa_not_baseline (t_align_items s) && fa_not_baseline (t_align_self s).
+
   (* ---- the engine's other parameters: the run mode of an input, the memo key (every field of the LayoutInput; numbers compared with
      `teq`: `eqb` of the Num instance compares them as numbers, Model/TaffyKey.v gives the representation equalities of F32 / XQ, which
      are EXACT keys: equal keys are equal inputs), LayoutOutput::HIDDEN, Layout::with_order(0) *)
